@@ -24,9 +24,13 @@ def _job(job):
     rng = np.random.default_rng(list(seed_tuple))
     n = int(rng.integers(7, 12))
     X = rng.normal(size=(n, 2)) + np.arange(n)[:, None] * 0.05       # distinct rows: no ties, sample identity recoverable
+    big = (seed_tuple[2] % 4 == 2) and not E.slow
+    if big:          # a tutorial-sized pool: three blobs, few labels (coverage / cluster structure is only partial there)
+        n = int(rng.integers(30, 50))
+        X = rng.normal(size=(n, 2)) + np.array([[-4.0, 0.0], [4.0, 0.0], [0.0, 5.0]])[rng.integers(0, 3, size=n)]
     classes = [0, 1] if E.binary else [0, 1, 2]
     y = rng.integers(0, len(classes), size=n).astype(float) if E.task == "clf" else np.round(rng.normal(size=n), 1)
-    lab = rng.random(n) < 0.5
+    lab = rng.random(n) < (0.04 if big else 0.5)          # big pools: one or two labels, most of the pool is not covered yet
     if lab.all():
         lab[:2] = False
     cold = (seed_tuple[2] % 4 == 3)          # cold start: nothing labeled yet
@@ -78,6 +82,32 @@ def _job(job):
         except Exception as e:
             if err_class(e) != "MappingError":
                 out["problems"].append(("exception_rows", repr(e)[:150]))
+    # (1b) the same three addressings on ONE strategy object that has already answered another call (a batch of two): whatever a strategy
+    #      keeps between calls must not make the addressing matter
+    if seed_tuple[2] % 2 == 0:
+        try:
+            qs = E.make(classes, seed)
+
+            def qr(cand, bs=1):
+                np.random.seed(0)
+                idx, ut = qs.query(X=X.copy(), y=y.copy(), candidates=cand, batch_size=bs, return_utilities=True, **E.kw(classes, seed))
+                return int(np.asarray(idx).ravel()[0]), np.asarray(ut, dtype=float)[0]
+            if not E.max_bs and seed_tuple[2] % 4 == 0:
+                qr(np.sort(unl)[: max(1, len(unl) // 2)].copy(), bs=2)       # warm-up: a strict subset, two picks (every other time)
+            bsr = 1 if E.max_bs else 2          # batches of two: the second pick of a call must not leak into the next call either
+            j0, v0 = qr(None, bs=bsr)
+            j1, v1 = qr(np.sort(unl).copy(), bs=bsr)
+            out["did"].append("reused_object")
+            if not close(v0, v1):
+                out["problems"].append(("none_vs_indices_reused_object", f"max diff {np.nanmax(np.abs(v0 - v1)):.3g} on an object that answered another call before"))
+            elif E.feat:
+                j2, v2 = qr(X[np.sort(unl)].copy(), bs=bsr)
+                if not close(v0[np.sort(unl)], v2):
+                    out["problems"].append(("none_vs_rows_reused_object", f"max diff {np.nanmax(np.abs(v0[np.sort(unl)] - v2)):.3g} on an object that answered another call before"))
+        except Exception as e:
+            # short / empty batches and the k-means failure of RegressionTreeBasedAL are recorded C01 findings, not addressing matters
+            if err_class(e) != "MappingError" and not E.base.startswith("RegressionTreeBasedAL"):
+                out["problems"].append(("exception_reused_object", repr(e)[:150]))
     # (2) restriction and (3) permutation, for strategies that score samples independently
     if E.samplewise and not E.setdep and not E.stochastic:
         try:
